@@ -218,6 +218,46 @@ func RunMath(c MathCase) (res MathResult) {
 			add("UniqueGroupSignature", fmt.Sprintf("signer set %v reconstructs a different signature (err=%v)", alt, err))
 		}
 	}
+	// key sets that are NOT the images of one polynomial (a wrong group key; one public key share replaced by an unrelated key, its
+	// signer signing with the unrelated private key): every share the object verifies is valid for the key it was given, yet the
+	// interpolation is not the signature of the group key: ThresholdSignature() must report an error, never hand out a signature
+	// that fails under the group key it was constructed with (C06)
+	if len(signers) == g.T+1 && g.T+1 <= 12 {
+		foreign, _ := crypto.GeneratePrivateKey(crypto.BLSBLS12381, append([]byte("verif-foreign-key-"), make([]byte, 32)...))
+		for variant := 0; variant < 2; variant++ {
+			gk := g.PK
+			pks := append([]crypto.PublicKey(nil), g.Pks...)
+			sh := append([]crypto.Signature(nil), shares...)
+			if variant == 0 {
+				gk = foreign.PublicKey()
+			} else {
+				pks[signers[0]] = foreign.PublicKey()
+				sh[0], _ = foreign.Sign(g.Msg, h)
+			}
+			for _, trusted := range []bool{false, true} {
+				in2, err := crypto.NewBLSThresholdSignatureInspector(gk, pks, g.T, g.Msg, g.Tag)
+				if err != nil {
+					add("Inspector", err.Error())
+					break
+				}
+				for i := range signers {
+					if trusted && i == len(signers)-1 {
+						in2.TrustedAdd(signers[i], sh[i])
+					} else if valid, _, err := in2.VerifyAndAdd(signers[i], sh[i]); err != nil || !valid {
+						add("ValidShareVerifies", fmt.Sprintf("VerifyAndAdd(%d) = (%v, %v) for a share valid under the key of that signer", signers[i], valid, err))
+					}
+				}
+				for rep := 0; rep < 2; rep++ {
+					ts, err := in2.ThresholdSignature()
+					if err == nil {
+						if ok, _ := gk.Verify(ts, g.Msg, h); !ok {
+							add("StatefulNeverBadSignature", fmt.Sprintf("key set that is not one polynomial (variant %d, last share trusted: %v): ThresholdSignature() call %d returned a signature that fails under the group key", variant, trusted, rep+1))
+						}
+					}
+				}
+			}
+		}
+	}
 	// stateful API, shares added in the same order, alternately trusted / verified
 	insp, err := crypto.NewBLSThresholdSignatureInspector(g.PK, g.Pks, g.T, g.Msg, g.Tag)
 	if err != nil {
